@@ -214,6 +214,8 @@ def run(prog, rep):
     rep.attempt(PR.tdftype_primitives, prog, rep)
     from ..staging import staging_dtypes
     rep.attempt(staging_dtypes, prog, rep)
+    from ..staging import constructor_dtypes
+    rep.attempt(constructor_dtypes, prog, cd, rep)
     rep.attempt(PR.string_codec, prog, rep)
     rep.attempt(PR.date_codec, prog, rep)
     from ..codecs import no_stale_derived_state
